@@ -40,7 +40,7 @@ class World:
     """Ground-truth recorder shared by harness, tasks and runners."""
 
     def __init__(self):
-        self.reset()
+        self.reset(epoch=int(os.environ.get('VERIF_EPOCH', '1')), file=os.environ.get('VERIF_WORLD_FILE') or None)
 
     def reset(self, *, epoch: int = 1, faults=(), file: str | None = None, emit=None, on_run=None):
         self.epoch = epoch
@@ -190,7 +190,8 @@ TM = _mk('TM', cache=None, max_parallel=1)
 TF = _mk('TF', extra={'filter_context': _filter_even})
 TP = _mk('TP', extra={'post_init': _post_init})
 TJ = _mk('TJ', cache=JsonCache())
+T2 = _mk('T2', cache=labtech.cache.PickleCache(pickle_protocol=2))
 
-TYPES = {c.__name__: c for c in (TA, TB, TC, TD, TN, TM, TF, TP, TJ)}
+TYPES = {c.__name__: c for c in (TA, TB, TC, TD, TN, TM, TF, TP, TJ, T2)}
 MAX_PARALLEL = {n: c._lt.max_parallel for n, c in TYPES.items()}
 CACHEABLE = {n: not isinstance(c._lt.cache, labtech.cache.NullCache) for n, c in TYPES.items()}
